@@ -1,4 +1,4 @@
-package main
+package main_test
 
 // Constraint-level mutation (DESIGN.md §3.3 c): exactly one documented input
 // constraint is broken on an otherwise valid request. Every mutant must be
